@@ -105,29 +105,29 @@ Proof. unfold accepted. cbn [tl]. rewrite shape_eqb_refl. apply orb_true_r. Qed.
 (* ------------------------------------------------------------------ the shape law of predict *)
 
 (* one observation in, one action out (action space's shape) *)
-Theorem predict_shape_single sp ashape : predict_shape sp ashape (space_shape sp) = Some ashape.
+Theorem predict_shape_single sp ashape : supported sp = true -> predict_shape sp ashape (space_shape sp) = Some ashape.
 Proof.
-  unfold predict_shape, obs_to_tensor.
+  intros Hs. unfold predict_shape, obs_to_tensor. rewrite Hs.
   rewrite (maybe_transpose_accepted sp _ (accepted_single _)), is_vec_single. reflexivity.
 Qed.
 
 (* a batch of n observations in (n = 1 included, any n), n actions out *)
-Theorem predict_shape_batch sp ashape n : predict_shape sp ashape (n :: space_shape sp) = Some (n :: ashape).
+Theorem predict_shape_batch sp ashape n : supported sp = true -> predict_shape sp ashape (n :: space_shape sp) = Some (n :: ashape).
 Proof.
-  unfold predict_shape, obs_to_tensor.
+  intros Hs. unfold predict_shape, obs_to_tensor. rewrite Hs.
   rewrite (maybe_transpose_accepted sp _ (accepted_batch n _)), is_vec_batch. reflexivity.
 Qed.
 
 (* so the result has a leading batch dimension exactly when the input had one *)
-Theorem predict_batch_dim_iff sp ashape o r :
+Theorem predict_batch_dim_iff sp ashape o r : supported sp = true ->
   (o = space_shape sp \/ exists n, o = n :: space_shape sp) ->
   predict_shape sp ashape o = Some r ->
   (r = ashape <-> o = space_shape sp) /\ (forall n, o = n :: space_shape sp -> r = n :: ashape).
 Proof.
-  intros [->|[n ->]] H.
-  - rewrite predict_shape_single in H. inversion H; subst. split; [tauto|].
+  intros Hs [->|[n ->]] H.
+  - rewrite predict_shape_single in H by exact Hs. inversion H; subst. split; [tauto|].
     intros n E. exfalso. symmetry in E. exact (cons_neq_self n _ E).
-  - rewrite predict_shape_batch in H. inversion H; subst. split.
+  - rewrite predict_shape_batch in H by exact Hs. inversion H; subst. split.
     + split; intros E; exfalso; [exact (cons_neq_self n _ E) | exact (cons_neq_self n _ E)].
     + intros m E. inversion E; subst. reflexivity.
 Qed.
@@ -153,30 +153,52 @@ Proof.
 Qed.
 
 (* DQN's exploration branch follows the same law as the greedy branch (Discrete action: shape ()) *)
-Theorem dqn_eps_same_shape_law sp n :
+Theorem dqn_eps_same_shape_law sp n : supported sp = true ->
   dqn_eps_shape sp (space_shape sp) = predict_shape sp [] (space_shape sp) /\
   dqn_eps_shape sp (n :: space_shape sp) = predict_shape sp [] (n :: space_shape sp).
 Proof.
-  rewrite predict_shape_single, predict_shape_batch. unfold dqn_eps_shape. split.
+  intros Hs. rewrite predict_shape_single, predict_shape_batch by exact Hs. unfold dqn_eps_shape. split.
   - rewrite (maybe_transpose_accepted sp _ (accepted_single _)), is_vec_single. reflexivity.
   - rewrite (maybe_transpose_accepted sp _ (accepted_batch n _)), is_vec_batch. reflexivity.
 Qed.
 
 (* Dict observations: all keys single -> action shape; all keys batched with the same n -> (n, *action shape) *)
-Lemma obs_to_tensor_single sp : obs_to_tensor sp (space_shape sp) = Some (false, 1 :: space_shape sp).
-Proof. unfold obs_to_tensor. rewrite (maybe_transpose_accepted sp _ (accepted_single _)), is_vec_single. reflexivity. Qed.
+Definition key_ok (sp : space) : Prop := supported sp = true /\ 0 < prodZ (space_shape sp).
 
-Lemma obs_to_tensor_batch sp n : obs_to_tensor sp (n :: space_shape sp) = Some (true, n :: space_shape sp).
-Proof. unfold obs_to_tensor. rewrite (maybe_transpose_accepted sp _ (accepted_batch n _)), is_vec_batch. reflexivity. Qed.
+Lemma reshape_batch_single sp : 0 < prodZ (space_shape sp) -> reshape_batch sp (space_shape sp) = Some 1.
+Proof.
+  intros H. unfold reshape_batch. replace (0 <? prodZ (space_shape sp)) with true by (symmetry; apply Z.ltb_lt; exact H).
+  rewrite Z_mod_same_full, Z.eqb_refl. cbn [andb]. rewrite Z_div_same_full by lia. reflexivity.
+Qed.
 
-Lemma dict_tensors_single sps : dict_tensors sps (map space_shape sps) = Some (false, map (fun _ => 1) sps).
-Proof. induction sps as [|sp r IH]; [reflexivity|]. cbn [dict_tensors map]. rewrite obs_to_tensor_single, IH. reflexivity. Qed.
+Lemma reshape_batch_batch sp n : 0 < prodZ (space_shape sp) -> reshape_batch sp (n :: space_shape sp) = Some n.
+Proof.
+  intros H. unfold reshape_batch. replace (0 <? prodZ (space_shape sp)) with true by (symmetry; apply Z.ltb_lt; exact H).
+  cbn [prodZ fold_right]. fold (prodZ (space_shape sp)). rewrite Z_mod_mult, Z.eqb_refl. cbn [andb].
+  rewrite Z_div_mult_full by lia. reflexivity.
+Qed.
 
-Lemma dict_tensors_batch n sps : sps <> [] ->
+Lemma dict_tensors_single sps : Forall key_ok sps ->
+  dict_tensors sps (map space_shape sps) = Some (false, map (fun _ => 1) sps).
+Proof.
+  unfold dict_tensors. induction 1 as [|sp r [Hs Hp] _ IH]; [reflexivity|].
+  cbn [dict_tensors_from map]. rewrite Hs, (maybe_transpose_accepted sp _ (accepted_single _)), is_vec_single,
+    (reshape_batch_single sp Hp), IH. reflexivity.
+Qed.
+
+Lemma dict_tensors_from_true_batch n : forall sps, Forall key_ok sps ->
+  dict_tensors_from true sps (map (fun sp => n :: space_shape sp) sps) = Some (true, map (fun _ => n) sps).
+Proof.
+  induction 1 as [|sp r [Hs Hp] _ IH]; [reflexivity|].
+  cbn [dict_tensors_from map]. rewrite Hs, (maybe_transpose_accepted sp _ (accepted_batch n _)), (reshape_batch_batch sp n Hp), IH. reflexivity.
+Qed.
+
+Lemma dict_tensors_batch n sps : sps <> [] -> Forall key_ok sps ->
   dict_tensors sps (map (fun sp => n :: space_shape sp) sps) = Some (true, map (fun _ => n) sps).
 Proof.
-  induction sps as [|sp r IH]; [congruence|]. intros _. cbn [dict_tensors map]. rewrite obs_to_tensor_batch.
-  destruct r as [|sp2 r2]; [reflexivity|]. rewrite IH by discriminate. reflexivity.
+  unfold dict_tensors. intros Hne H. destruct H as [|sp r [Hs Hp] Hr]; [congruence|].
+  cbn [dict_tensors_from map]. rewrite Hs, (maybe_transpose_accepted sp _ (accepted_batch n _)), is_vec_batch,
+    (reshape_batch_batch sp n Hp), (dict_tensors_from_true_batch n r Hr). reflexivity.
 Qed.
 
 Lemma all_equal_const (b : Z) (A : Type) (l : list A) : l <> [] -> all_equal (map (fun _ => b) l) = Some b.
@@ -186,17 +208,25 @@ Proof.
   symmetry. induction r; cbn; [reflexivity|]. rewrite Z.eqb_refl. assumption.
 Qed.
 
-Theorem predict_shape_dict_single sps ashape : sps <> [] ->
+Theorem predict_shape_dict_single sps ashape : sps <> [] -> Forall key_ok sps ->
   predict_shape_dict sps ashape (map space_shape sps) = Some ashape.
 Proof.
-  intros H. unfold predict_shape_dict. rewrite dict_tensors_single, (all_equal_const 1 _ sps H). reflexivity.
+  intros H K. unfold predict_shape_dict. rewrite (dict_tensors_single sps K), (all_equal_const 1 _ sps H). reflexivity.
 Qed.
 
-Theorem predict_shape_dict_batch sps ashape n : sps <> [] ->
+Theorem predict_shape_dict_batch sps ashape n : sps <> [] -> Forall key_ok sps ->
   predict_shape_dict sps ashape (map (fun sp => n :: space_shape sp) sps) = Some (n :: ashape).
 Proof.
-  intros H. unfold predict_shape_dict. rewrite (dict_tensors_batch n sps H), (all_equal_const n _ sps H). reflexivity.
+  intros H K. unfold predict_shape_dict. rewrite (dict_tensors_batch n sps H K), (all_equal_const n _ sps H). reflexivity.
 Qed.
+
+(* the short-circuit of `vectorized_env or ...`: once a key was found vectorised, a later key is accepted whatever its shape as long as
+   its number of elements fits - so acceptance of a malformed Dict observation depends on the key order (not a claim of the property:
+   malformed inputs; modelled faithfully and generated by the harness) *)
+Theorem dict_short_circuit_example :
+  predict_shape_dict [SBox [2] false; SBox [2] false] [] [[3; 2]; [3; 1; 2]] = Some [3] /\
+  predict_shape_dict [SBox [2] false; SBox [2] false] [] [[3; 1; 2]; [3; 2]] = None.
+Proof. split; reflexivity. Qed.
 
 (* ------------------------------------------------------------------ values *)
 
